@@ -436,3 +436,51 @@ Fixpoint wf_node (n : node) : bool :=
   end.
 (* DecodeTrieNode returns a full or a short node, never a bare hash / value / nil *)
 Definition is_top (n : node) : bool := match n with Full _ | Short _ _ => true | _ => false end.
+
+(* ------------------------------------------------------------------------------------------------
+   Histories: ONE validator instance and ONE state storage driven through a sequence of items (state/network.go
+   validateContents: ValidateContent, and Put only after it returned nil).  Each event carries the header source's
+   behaviour DURING THAT STEP (serve by hash / fail the lookup / serve some other header), the content id and the decoded
+   item.  The real StateValidator has no mutable state: its model state is unit, threaded through the steps so that the
+   theorems say "the verdict of step i depends on step i's inputs only".  The storage state is the id -> value map. *)
+Record event : Type := { ev_header : bytes -> res bytes; ev_id : bytes; ev_req : request }.
+
+Definition vstate : Type := unit.                 (* fields of StateValidator that change between calls: none *)
+Definition store : Type := list (bytes * bytes).  (* content id -> stored value, latest first *)
+
+Fixpoint store_get (s : store) (id : bytes) : option bytes :=
+  match s with [] => None | (k, v) :: t => if bytes_eqb k id then Some v else store_get t id end.
+Definition store_put (s : store) (id v : bytes) : store := (id, v) :: s.
+
+Section History.
+  Variable node_hash : bytes -> bytes.
+  Variable decode : bytes -> res node.
+  Variable decode_account : bytes -> res (bytes * bytes).
+
+  (* StateValidator.ValidateContent as a step of the validator instance *)
+  Definition validate_step (st : vstate) (ev : event) : vstate * res unit :=
+    (st, validate_content node_hash decode decode_account (ev_header ev) (ev_req ev)).
+
+  (* one item: validate, then Put iff accepted.  Output: (validator verdict, Put result if Put ran) *)
+  Definition item_step (st : vstate * store) (ev : event) : (vstate * store) * (res unit * option (res bytes)) :=
+    let '(vs, s) := st in
+    let '(vs', v) := validate_step vs ev in
+    match v with
+    | Ok _ =>
+        let p := put node_hash (ev_req ev) in
+        match p with
+        | Ok b => ((vs', store_put s (ev_id ev) b), (v, Some p))
+        | _ => ((vs', s), (v, Some p))
+        end
+    | _ => ((vs', s), (v, None))
+    end.
+
+  Fixpoint run_history (st : vstate * store) (evs : list event) : (vstate * store) * list (res unit * option (res bytes)) :=
+    match evs with
+    | [] => (st, [])
+    | ev :: rest =>
+        let '(st', o) := item_step st ev in
+        let '(st'', os) := run_history st' rest in
+        (st'', o :: os)
+    end.
+End History.
